@@ -292,7 +292,9 @@ func (fg *FlowGraph) identFacts(fs []Fact) map[identFact]bool {
 		switch x := e.(type) {
 		case *ast.Ident:
 			if o := fg.Info.ObjectOf(x); o != nil {
-				out[identFact{o, false}] = !f.Neg
+				if _, seen := out[identFact{o, false}]; !seen { // facts come nearest-first: the nearest test wins
+					out[identFact{o, false}] = !f.Neg
+				}
 			}
 		case *ast.BinaryExpr:
 			if x.Op != token.EQL && x.Op != token.NEQ {
@@ -306,7 +308,9 @@ func (fg *FlowGraph) identFacts(fs []Fact) map[identFact]bool {
 				if tv, ok := fg.Info.Types[side[1]]; ok && tv.IsNil() {
 					if o := fg.Info.ObjectOf(id); o != nil {
 						isNil := (x.Op == token.EQL) != f.Neg
-						out[identFact{o, true}] = isNil
+						if _, seen := out[identFact{o, true}]; !seen {
+							out[identFact{o, true}] = isNil
+						}
 					}
 				}
 			}
@@ -708,3 +712,21 @@ func (fg *FlowGraph) assignCount(o types.Object) int {
 	})
 	return n
 }
+
+// LocOfOuter returns the location of the block node that textually contains n,
+// descending into function literals (the literal's creation point for nodes
+// inside a literal).
+func (fg *FlowGraph) LocOfOuter(n ast.Node) Loc {
+	for _, b := range fg.G.Blocks {
+		for i, bn := range b.Nodes {
+			if bn.Pos() <= n.Pos() && n.End() <= bn.End() {
+				return Loc{b, i, bn}
+			}
+		}
+	}
+	return Loc{}
+}
+
+// LocOfRange returns the location of a range statement's operand (go/cfg
+// evaluates it in the block that precedes the loop header).
+func (fg *FlowGraph) LocOfRange(rs *ast.RangeStmt) Loc { return fg.LocOfOuter(rs.X) }
